@@ -207,6 +207,10 @@ def parse_output(out):
     return results
 
 
+# address-space cap per solver process of the LSP group (two run at a time)
+LSP_MEM_GB = int(os.environ.get("VERIF_LSP_MEM_GB", "24"))
+
+
 def kani_cmd(crate, harnesses, timeout_s, jobs, flags="", extra=()):
     cmd = ["cargo", "kani", "-p", CRATES[crate], "--features", "verif", "-Z", "stubbing",
            "-Z", "function-contracts", "-Z", "unstable-options",
@@ -280,49 +284,64 @@ def run_units(units, tier, jobs=16, use_cache=True, log=None):
     groups = {}
     for u, cpath in todo:
         groups.setdefault((u.crate, u.flags), []).append((u, cpath))
-    for (crate, flags), items in sorted(groups.items()):
-        tmo = max(u.timeout for u, _ in items)
-        if tier == "thorough":
-            tmo = max(tmo, 900)
-        if os.environ.get("VERIF_TIMEOUT_CAP"):
-            tmo = min(tmo, int(os.environ["VERIF_TIMEOUT_CAP"]))
-        # the LSP harnesses build Strings from symbolic chars and need 15-30 GB each: run two at a time
-        group_jobs = min(jobs, 2) if crate == "trust_lsp" else jobs
-        cmd = kani_cmd(crate, [u.fq for u, _ in items], tmo, group_jobs, flags)
-        # overall guard: every harness could run sequentially in the worst case, cap generously
-        overall = 900 + tmo * (1 + len(items) // max(1, jobs // 2))
-        t0 = time.time()
-        tee = os.path.join(CACHE, "logs", f"kani-{crate}-{flags or 'std'}-{int(t0)}.log")
-        rc, out, wall = run(cmd, cwd=REPO, timeout=overall, tee=tee)
-        if log is not None:
-            log.append({"cmd": " ".join(shlex.quote(c) for c in cmd), "rc": rc, "wall_s": round(wall, 1)})
-        build_failed = ("error: could not compile" in out) or ("error[E" in out and "Checking harness" not in out)
-        parsed = parse_output(out)
-        for u, cpath in items:
-            r = parsed.get(u.fq)
-            if build_failed and r is None:
-                verdict, reason = "undecided", "harness crate did not compile against the current tree (anchor lost or signature changed)"
-                errs = [l for l in out.split("\n") if l.startswith("error")][:5]
-                r = {"status": "BUILD_ERROR", "raw": "\n".join(errs)}
-            elif rc == -9 and (r is None or r.get("status") == "NO_RESULT"):
-                verdict, reason = "undecided", "cargo kani invocation exceeded the overall time guard"
-                r = r or {"status": "NO_RESULT", "raw": ""}
-            else:
-                verdict, reason = classify(u, r)
-                r = r or {"status": "NO_RESULT", "raw": out[-3000:]}
-            rec = {
-                "unit": u.id, "harness": u.fq, "crate": CRATES[u.crate], "engine": "kani", "kind": u.kind,
-                "bound": u.bound, "fns": u.fns, "verdict": verdict, "reason": reason,
-                "checks": r.get("checks", 0), "failed": r.get("failed", 0),
-                "unreachable": r.get("unreachable", 0),
-                "covers": r.get("covers", 0), "covers_sat": r.get("covers_sat", 0),
-                "time_s": r.get("time_s", 0.0), "failed_checks": r.get("failed_checks", []),
-                "raw": r.get("raw", "") if verdict not in ("verified",) else "",
-                "cached": False, "known": u.known,
-            }
-            records[u.id] = rec
-            if verdict in ("verified", "known-present", "known-absent"):
-                write_json(cpath, rec)
+    concurrent = len(groups) > 1 and any(c == "trust_lsp" for c, _ in groups)
+
+    def run_group(crate, flags, items):
+            tmo = max(u.timeout for u, _ in items)
+            if tier == "thorough":
+                tmo = max(tmo, 900)
+            if os.environ.get("VERIF_TIMEOUT_CAP"):
+                tmo = min(tmo, int(os.environ["VERIF_TIMEOUT_CAP"]))
+            # the LSP harnesses build Strings from symbolic chars and need 15-30 GB each: run two at a time
+            group_jobs = min(jobs, 2) if crate == "trust_lsp" else (max(2, jobs - 2) if concurrent else jobs)
+            cmd = kani_cmd(crate, [u.fq for u, _ in items], tmo, group_jobs, flags)
+            # overall guard: every harness could run sequentially in the worst case, cap generously
+            overall = 900 + tmo * (1 + len(items) // max(1, group_jobs // 2))
+            t0 = time.time()
+            tee = os.path.join(CACHE, "logs", f"kani-{crate}-{flags or 'std'}-{int(t0)}.log")
+            rc, out, wall = run(cmd, cwd=REPO, timeout=overall, tee=tee, mem_gb=(LSP_MEM_GB if crate == "trust_lsp" else 40))
+            if log is not None:
+                log.append({"cmd": " ".join(shlex.quote(c) for c in cmd), "rc": rc, "wall_s": round(wall, 1)})
+            build_failed = ("error: could not compile" in out) or ("error[E" in out and "Checking harness" not in out)
+            parsed = parse_output(out)
+            for u, cpath in items:
+                r = parsed.get(u.fq)
+                if build_failed and r is None:
+                    verdict, reason = "undecided", "harness crate did not compile against the current tree (anchor lost or signature changed)"
+                    errs = [l for l in out.split("\n") if l.startswith("error")][:5]
+                    r = {"status": "BUILD_ERROR", "raw": "\n".join(errs)}
+                elif rc == -9 and (r is None or r.get("status") == "NO_RESULT"):
+                    verdict, reason = "undecided", "cargo kani invocation exceeded the overall time guard"
+                    r = r or {"status": "NO_RESULT", "raw": ""}
+                else:
+                    verdict, reason = classify(u, r)
+                    r = r or {"status": "NO_RESULT", "raw": out[-3000:]}
+                rec = {
+                    "unit": u.id, "harness": u.fq, "crate": CRATES[u.crate], "engine": "kani", "kind": u.kind,
+                    "bound": u.bound, "fns": u.fns, "verdict": verdict, "reason": reason,
+                    "checks": r.get("checks", 0), "failed": r.get("failed", 0),
+                    "unreachable": r.get("unreachable", 0),
+                    "covers": r.get("covers", 0), "covers_sat": r.get("covers_sat", 0),
+                    "time_s": r.get("time_s", 0.0), "failed_checks": r.get("failed_checks", []),
+                    "raw": r.get("raw", "") if verdict not in ("verified",) else "",
+                    "cached": False, "known": u.known,
+                }
+                records[u.id] = rec
+                if verdict in ("verified", "known-present", "known-absent"):
+                    write_json(cpath, rec)
+
+    # the LSP group (two memory-heavy solver processes) runs alongside the runtime groups; the runtime
+    # groups run one after the other
+    import threading
+    lsp = [(k, v) for k, v in sorted(groups.items()) if k[0] == "trust_lsp"]
+    rest = [(k, v) for k, v in sorted(groups.items()) if k[0] != "trust_lsp"]
+    def seq(gs):
+        for (crate, flags), items in gs:
+            run_group(crate, flags, items)
+    th = threading.Thread(target=seq, args=(lsp,))
+    th.start()
+    seq(rest)
+    th.join()
     return records
 
 
